@@ -1049,7 +1049,7 @@ func runC15(c *lib.Ctx) {
 			}
 		}
 		if i%(len(cases)/12+1) == 0 {
-			c.Ev.Sample(map[string]string{"case": cs.lisp(), "impl": impl.String(), "model": replies[i]})
+			c.Ev.Sample(map[string]string{"case": cs.lisp(), "impl": impl.String(), "model": c15Clip(replies[i])})
 		}
 		if aspect == "" {
 			agree++
@@ -1171,7 +1171,7 @@ func runC15(c *lib.Ctx) {
 	c.Ev.Coverage["model_rejected_inputs"] = modelRejected
 	c.Ev.Coverage["sweep_cells_failing"] = len(cellOrder)
 	c.Ev.Coverage["disagreements_checked"] = len(cases) - agree
-	c.Ev.Coverage["rule"] = "cases = (control string, argument tuple); sweep = per directive x modifiers x parameter class x argument class cells (exhaustive, seed independent; ~@R/~:@R over all of 1..3999) + cursor-boundary, no-argument-left, V/+ parameter and colinc-0 cells + nested conditionals (every inner kind in every clause of every outer kind, in- and out-of-range selectors) + histories (mode seq: several calls in one fresh process, each compared with the model, values unique to the history) + implementation-only relations (~A=princ, ~S=prin1, destinations); composite = seeded random compositions of up to 4 directives incl. nesting, avoiding constructs listed in findings; non-trivial = a directive has a parameter or modifier, or >= 2 directives; distinct by (control, arguments)"
+	c.Ev.Coverage["rule"] = "cases = (control string, argument tuple); sweep = per directive x modifiers x parameter class x argument class cells (exhaustive, seed independent; ~@R/~:@R over all of 1..3999) + cursor-boundary, no-argument-left, V/+ parameter and colinc-0 cells + nested conditionals (every inner kind in every clause of every outer kind, in- and out-of-range selectors) + histories (mode seq: several calls in one fresh process, each compared with the model, values unique to the history) + characters of every UTF-8 length class + printer-variable environments (mode env: pairs unusual-argument directive -> printer-dependent directive; model text, call = its directives in separate calls, ~A/~S = princ/prin1-to-string) + ~R/~:R ranges (mode rlist: exhaustive range and every period boundary, model and oracle; one case = one batch of integers) + implementation-only relations (~A=princ, ~S=prin1, destinations); composite = seeded random compositions of up to 4 directives incl. nesting, avoiding constructs listed in findings; non-trivial = a directive has a parameter or modifier, or >= 2 directives; distinct by (control, arguments)"
 }
 
 // c15Shrink removes top-level units (with their arguments) while the case still disagrees.
